@@ -87,4 +87,27 @@ func (*Thread).popNSkipOne
     invariant slot(vm, old(soff(vm)) - n - 1) == old(slot(vm, soff(vm) - 1))
     invariant forall a int :: !(sbase(vm) <= a && a < sbase(vm) + 24 * len(vm.stack)) ==> load(value.Value, a) == old(load(value.Value, a))
     decreases i - (old(soff(vm)) - n - 1)
+
+// ==== growing the value stack (C10, C13) ================================================
+// Reallocation must be invisible: every slot keeps its content and every pointer into the
+// old backing array (sp, fp, the frame pointers of suspended bytecode frames, the slots of
+// open upvalues) denotes the same slot of the new one.
+spec fn inOldStack(a int, base int, n int) bool = base <= a && a < base + 24 * n
+
+func (*Thread).growValueStack
+  props C10 C13 C01
+  requires wfStack(vm) && 2 * len(vm.stack) < MAX_VALUE_STACK_SIZE
+  requires forall j int :: 0 <= j && j < len(vm.callFrames) && !elem(vm.callFrames, j).isNative && !elem(vm.callFrames, j).sentinel ==> (elem(vm.callFrames, j).fp == 0 || (inOldStack(elem(vm.callFrames, j).fp, sbase(vm), len(vm.stack)) && emod(elem(vm.callFrames, j).fp - sbase(vm), 24) == 0))
+  ensures wf: wfStack(vm)
+  ensures size: len(vm.stack) == 2 * old(len(vm.stack)) && freshSlice(vm.stack)
+  ensures offsets: soff(vm) == old(soff(vm)) && foff(vm) == old(foff(vm))
+  ensures content: forall k int :: 0 <= k && k < old(len(vm.stack)) - 1 ==> slot(vm, k) == old(slot(vm, k))
+  ensures frames: forall j int :: 0 <= j && j < len(vm.callFrames) && !old(elem(vm.callFrames, j).isNative) && !old(elem(vm.callFrames, j).sentinel) && old(elem(vm.callFrames, j).fp) != 0 ==> elem(vm.callFrames, j).fp - sbase(vm) == old(elem(vm.callFrames, j).fp - sbase(vm))
+  ensures natives: forall j int :: 0 <= j && j < len(vm.callFrames) && old(elem(vm.callFrames, j).isNative) ==> elem(vm.callFrames, j).fp == old(elem(vm.callFrames, j).fp)
+  loop 1
+    invariant vm.callFrames == old(vm.callFrames) && vm.stack == old(vm.stack) && vm.sp == old(vm.sp) && vm.fp == old(vm.fp)
+    invariant forall j int :: 0 <= j && j < range_idx && !old(elem(vm.callFrames, j).isNative) && !old(elem(vm.callFrames, j).sentinel) && old(elem(vm.callFrames, j).fp) != 0 ==> elem(vm.callFrames, j).fp - newStackPtr == old(elem(vm.callFrames, j).fp) - oldStackPtr
+    invariant forall j int :: 0 <= j && j < len(vm.callFrames) && (j >= range_idx || old(elem(vm.callFrames, j).isNative) || old(elem(vm.callFrames, j).sentinel)) ==> elem(vm.callFrames, j).fp == old(elem(vm.callFrames, j).fp)
+    invariant forall j int :: 0 <= j && j < len(vm.callFrames) ==> elem(vm.callFrames, j).isNative == old(elem(vm.callFrames, j).isNative) && elem(vm.callFrames, j).sentinel == old(elem(vm.callFrames, j).sentinel)
+    decreases len(vm.callFrames) - range_idx
 @*/
